@@ -70,6 +70,8 @@ pub struct TableProvider {
     /// `version_sets_in_union` returns an iterator without an upper size bound (as a
     /// flat_map / from_fn based implementation would)
     pub union_iter_unbounded: Cell<bool>,
+    /// once cancellation has been signalled the provider completes no request any more
+    pub freeze_on_cancel: Cell<bool>,
 }
 
 impl TableProvider {
@@ -92,6 +94,7 @@ impl TableProvider {
             log_all: Cell::new(false),
             filter_reversed: Cell::new(false),
             union_iter_unbounded: Cell::new(false),
+            freeze_on_cancel: Cell::new(false),
         }
     }
 
@@ -387,6 +390,11 @@ impl DependencyProvider for TableProvider {
             Cancel::Sticky(at) => k >= at,
         };
         if fire {
+            if self.freeze_on_cancel.get() {
+                if let Some(s) = &self.sched {
+                    s.frozen.set(true);
+                }
+            }
             let outstanding = self.sched.as_ref().map(|s| s.outstanding().len()).unwrap_or(0);
             self.log.borrow_mut().push(Call::Poll(k, outstanding));
             return Some(Box::new(k));
